@@ -83,4 +83,12 @@ pub fn err_token(e: &amiquip::Error) -> String {
     }
 }
 
+/// Location of the most recent panic (set by the probe's panic hook).
+pub static LAST_PANIC: std::sync::Mutex<Option<String>> = std::sync::Mutex::new(None);
+
+pub fn take_last_panic() -> Option<String> {
+    LAST_PANIC.lock().ok().and_then(|mut g| g.take())
+}
+
+pub mod canon;
 pub mod engines;
